@@ -55,6 +55,17 @@ CHECKS = {
         note='Exhaustive over the declared scalar numeric/option parameters (finite). List parameters out of scope. Documented internal '
              'rescalings (depth, impedance x1000) are a table in the harness. Trusted: TLC, BigInteger rationals.',
         tech='TLA+ decision-table spec (ReadParam.tla) model-checked with TLC; exhaustive boundary matrix run through the code and validated by TLC (TraceReadParam.tla)'),
+    'C08': dict(
+        cat='model_checking', ref='DESIGN.md section 5 C08',
+        text='Client.tla (cwd, argv, per-client cache, rewritable input files; request = cache hit | run ok | run fail, rewrite, chdir) is '
+             'model-checked over every history of <= 5 operations (C08_restore, C08_fresh; the pinned design must violate them); histories '
+             'TLC dumps are replayed through real caching and non-caching GeophiresXClient objects over 9 input families incl. failing '
+             'requests and file rewrites, and the recorded histories validated by TraceClient.tla (restore, freshness against a stand-alone '
+             'reference run, purity of the outcome); contamination sequences in one process and CLI sub-processes under 3 hash seeds x 2 '
+             'start directories are validated by TraceHistory.tla (same input => same result).',
+        note='Histories for replay are sampled by seed from the exhaustive TLC dump (quick 110, thorough 1600). Results compared as report '
+             'text without date/time lines.',
+        tech='TLA+ spec (Client.tla) model-checked with TLC; TLC-generated histories replayed into the real client; TLC trace validation'),
     'C12': dict(
         cat='model_checking', ref='DESIGN.md section 5 C12',
         text='InputFile.tla models the tokeniser of read_input_file on real strings and is model-checked over every file of <= 3 lines from '
@@ -93,6 +104,15 @@ CHECKS = {
         note='Trusted: TLC, BigInteger rationals (Rat.java), projection of floats by as_integer_ratio. Continuous inputs are '
              'sampled by seed; exhaustive only for the small integer domains of the cfg.',
         tech='TLA+ spec (Schedule.tla) model-checked with TLC; TLC-generated vectors replayed into code; TLC trace validation of recorded runs'),
+    'C20': dict(
+        cat='model_checking', ref='DESIGN.md section 5 C20',
+        text='Entry.tla (4 entry points x 3 output-argument kinds x 2 start directories x ok / fail-at-read / fail-at-calculate, OutPath '
+             'resolution) is model-checked and its reachable matrix dumped; every cell is executed for real (python -m geophires_x '
+             'sub-processes with the guard off, in-process client, the run embedded in a Monte Carlo work package, direct pipeline) and '
+             'TraceEntry.tla checks same report, same JSON, files created exactly where OutPath says, non-zero exit / exception and no '
+             'report on failure.',
+        note='The matrix is exhaustive; concrete inputs are seeded (quick: 2 families + example1). MC-embedded runs compared through extracted tokens.',
+        tech='TLA+ spec (Entry.tla) model-checked with TLC, matrix executed against the real entry points, TLC trace validation (TraceEntry.tla)'),
 }
 
 NOT_YET = 'check not built yet in this round (see DESIGN.md section 9 for the order of construction)'
